@@ -63,12 +63,12 @@ CHECKS = {
         'variant_roundtrip (@bytes list parses back and its DEFB assembles to it); instruction_bytes / instruction_converse (re-decoding under any configuration and re-assembling gives the same bytes); rule_converse_partial (any spelling of the numeric operands that keeps shape and value). '
         'Kernel coverage: 1786 slots x 2256 option-set candidates x {upper, lower} = 4512 slot checks. The converse over ALL accepted spellings of whole instructions (leading +, LD B,(5), ignored third operands) stays e2e; base m on RST/IN A,(n)/OUT (n),A is excluded by hypothesis (known C01 finding). One genuine defect found here was repaired (e3630db: JR PO/PE/P/M accepted).',
    note=TB + 'tables regenerated from the real Disassembler each run (Gen/C02Tables.lean); hand models Model/OpText, AsmEval, Statements, InstrDecode, AsmInstr, DisText tied by correspondence (226k ops/run incl. a malformed stream compared by bytes or kind of exception); e2e 1.5M cases/run', ref='§8 C02'),
- 'C06': dict(cat='proof', technique='Lean 4: kernel-decided equality of the C and Python dispatch tables (translated from both sources each run) + per-closure equivalence contended/plain by a generic tactic + lock-step differential execution of 4 implementations',
-   text='The seven C dispatch tables equal the seven Python tables slot by slot (1792 rows, decide +kernel on regenerated definitions); CMIOSimulator dispatches to the same closure as Simulator for every opcode sequence; '
-        'one step of the Python contended simulator agrees with the plain one on registers, flags, memory, PC, IFF, IM, HALT and port sequences for every closure (BIT n,(HL): F bits 5/3 uncompared, the property\'s own MEMPTR exemption; HALT and LD A,I/R under the decidable frame-layout condition CfgOk, proved for both machines); '
-        'runs of any length stay related as long as no clock-reading closure (HALT, LD A,I/R) or BIT n,(HL) is executed. '
-        'The C handler bodies and run loops are NOT translated: per-slot differential against the generated model and lock-step programs (48K/128K, interrupts) are checked correspondence.',
-   note=TB + 'translators py2lean.py/cdispatch.py trusted, validated per slot each run; C bodies by differential execution only', ref='§8 C06'),
+ 'C06': dict(cat='proof', technique='Lean 4: BOTH sides are translated from source on every run — simulator.py/cmiosimulator.py by py2lean and the C handler bodies of c/csimulator.c (both builds) by a C-subset translator (translate/c2lean.py, explicit C integer semantics) — and proved equal per handler by one generic tactic, lifted to fetch, step and runs; dispatch tables equal by kernel enumeration; Python pair related per closure + per-slot execution of the real C extension against the C-translated model + lock-step programs',
+   text='25 theorems. The seven C dispatch tables equal the Python ones slot by slot (1792 rows, decide +kernel). NEW: c_handlers_eq_python / c_cmio_handlers_eq_python — for all 72 C opcode handlers, every well-formed argument tuple and every state satisfying the range invariant (RInv) and the C representation bounds CRep (T < 2^63, frame constants < 2^31: where C wraps and Python does not), the translated C handler equals the translated Python closure on the WHOLE state; c_fetch_eq_python (GET_OPCODE_FUNC selects the row Python selects); '
+        'c_step_eq_python and c_run_eq_python for any number of steps (plain and contended); c_accept_interrupt_eq_model; c_dispatch_rows_args_ok. OUT (n),A / OUT (C),r / OUTI.. carry the hypothesis OutOk (tracer attached or 48K): the full statement is refuted (c_out_full_false: on 128K memory without a tracer the C simulator pages by itself — known finding c-pages-128k-without-tracer). '
+        'Python pair: CMIOSimulator dispatches to the same closure; one step agrees on registers, flags, memory, PC, IFF, IM, HALT and port sequences (BIT n,(HL) F bits 5/3 aside; HALT and LD A,I/R under CfgOk); runs stay related while no clock-reading closure executes. '
+        'Still differential only: the C run/trace/exec_frame/load loops (modelled by hand in C10/C13/C20), dec_a, the C init_* table code (4.2M table entries read back through the real handlers and compared with simtables.py each run).',
+   note=TB + 'translators py2lean.py and c2lean.py (C-to-Int mapping trusted: u8/u32/i32/u64 wraps after every arithmetic operation, gcc -fwrapv; every macro text, out7ffd(), typedefs and struct fields are checked verbatim, anything outside the subset is a translator break); PEEK/POKE = MemLike, OUT = portOut, self->contend = Model/Contend, tracer C-API blocks = input stream/output log: modelled, validated per slot against the real C extension (36k cases/run, both builds, 48K and 128K)', ref='§8 C06'),
  'C19': dict(cat='proof', technique='Lean 4 theorems over the model regenerated from cmiosimulator.py (generic tactic per closure), a hand model of the delay tables (tied exhaustively), and an INDEPENDENT bus-cycle specification (Spec/Z80Bus.lean: ordered memory/I-O cycles of every instruction form, written from the documented contention tables) against which the delay of every closure is proved exactly + exact-T oracle on the real contended simulators',
    text='39 theorems. Per closure, no exclusions: contended = plain on registers/flags/memory/PC/interrupt state/port sequence (F bits 5/3 of BIT n,(HL) aside) and never fewer T-states; outside the display window every closure takes exactly the plain T-states; window constants tied, sound and tight; delay tables follow the 6,5,4,3,2,1,0,0 pattern on both frame layouts (all 69888+70908 entries). '
         'New: delay_equals_documented_pattern — for the instruction decoded at PC (through C05\'s independent decoder), from any RInv state inside the window, T_contended = T_plain + fold of the documented wait pattern over the specification\'s cycles in order (busDelay), for every instruction; the spec\'s cycle lengths add up to the manual\'s T-states for all 7x256 opcodes and both branch outcomes (kernel-decided); '
